@@ -27,6 +27,13 @@
      "bumpOnlyWhenValid"       the nonce is bumped only for well-formed adds
      "noNonceCheck"            the owner signature is not bound to the expected nonce
      "memNotUpdatedOnDelete"   Shares.Delete forgets the in-memory map
+     "noSigCheck" "noLenCheck" "noKeyCheck" "noDupOpCheck" "noSizeCheck" "noOpExistCheck"
+                               one validation of ValidatorAdded dropped
+     "overwriteExisting"       a second ValidatorAdded for a stored validator replaces the share
+     "secondOwnId"             the own public key is accepted under a second operator id
+     "reactKeepsLiquidated"    ClusterReactivated does not clear the flag
+     "liqIgnoresOwner"         cluster events match on the operator set only
+     "exitNoOwnerCheck"        ValidatorExited of a foreign owner yields an exit task
      "noInferiorGuard"         a block not newer than the last processed one is processed again
      "markerOutsideTxn"        SaveLastProcessedBlock writes outside the block transaction
      "readErrorSwallowed"      a failed OperatorsExist read inside validateOperators is wrapped into a
@@ -135,28 +142,38 @@ F(t) == [NilF EXCEPT !.t = t]
 RECURSIVE Rep(_, _)
 Rep(f, n) == IF n = 0 THEN <<>> ELSE <<f>> \o Rep(f, n - 1)
 
+MechCommitteeOK(ops, comm) ==
+    /\ (Weaken = "noSizeCheck" \/ ValidSize(Len(comm))) /\ Len(comm) > 0
+    /\ (Weaken = "noDupOpCheck" \/ Distinct(comm))
+    /\ (Weaken = "noOpExistCheck" \/ \A i \in SetOf(comm) : i \in OpIds /\ ops[i] # "none")
+MechPre(m, e) ==
+    /\ MechCommitteeOK(m.tx.ops, e.comm)
+    /\ (Weaken = "noLenCheck" \/ e.len = "ok") /\ (Weaken = "noSigCheck" \/ e.sig = "ok")
+    /\ (Weaken = "noNonceCheck" \/ e.sn = m.tx.rcpt[e.o].nonce)
+
 (* m = [db, tx, mem, ks] *)
-ClusterShares(m, e) == {v \in Validators : /\ m.mem.shares[v].on /\ m.mem.shares[v].owner = e.o
+ClusterShares(m, e) == {v \in Validators : /\ m.mem.shares[v].on /\ (m.mem.shares[v].owner = e.o \/ Weaken = "liqIgnoresOwner")
                                            /\ m.mem.shares[v].mine /\ SameCluster(m.mem.shares[v].comm, e.comm)}
 
 Eff(m, e) ==
     CASE e.k = "OpAdd" ->
            LET seen == IF Weaken = "operatorReadOutsideTxn" THEN m.db.ops[e.id] ELSE m.tx.ops[e.id]
-           IN IF m.mem.own # 0 /\ e.key = "self" /\ m.mem.own # e.id THEN <<>>        \* ErrAlreadyRegistered
+           IN IF m.mem.own # 0 /\ e.key = "self" /\ m.mem.own # e.id /\ Weaken # "secondOwnId" THEN <<>>   \* ErrAlreadyRegistered
               ELSE IF seen # "none" THEN <<>>
               ELSE << [F("setOp") EXCEPT !.id = e.id, !.key = e.key] >>
       [] e.k = "VAdd" ->
            LET n      == m.tx.rcpt[e.o].nonce
                rc1    == [on |-> TRUE, nonce |-> n + 1, fee |-> IF m.tx.rcpt[e.o].on THEN m.tx.rcpt[e.o].fee ELSE "own"]
-               pre    == /\ CommitteeOK(m.tx.ops, e.comm) /\ e.len = "ok" /\ e.sig = "ok"
-                         /\ (Weaken = "noNonceCheck" \/ e.sn = n)
+               pre    == MechPre(m, e)
                \* validateOperators reaches the OperatorsExist read only for a well-sized, duplicate-free committee
-               val    == IF ValidSize(Len(e.comm)) /\ Distinct(e.comm) THEN << F("validate") >> ELSE <<>>
+               val    == IF (Weaken = "noSizeCheck" \/ ValidSize(Len(e.comm))) /\ Len(e.comm) > 0 /\ (Weaken = "noDupOpCheck" \/ Distinct(e.comm))
+                         THEN << F("validate") >> ELSE <<>>
                cur    == m.mem.shares[e.v]
                mine   == m.mem.own # 0 /\ m.mem.own \in SetOf(e.comm)
-               create == pre /\ ~cur.on /\ (mine => e.enc = "ok")
+               create == /\ pre /\ (~cur.on \/ (Weaken = "overwriteExisting" /\ cur.owner # e.o))
+                         /\ (mine => (e.enc = "ok" \/ (Weaken = "noKeyCheck" /\ e.enc = "mismatch")))
                sh     == [on |-> TRUE, owner |-> e.o, comm |-> e.comm, mine |-> mine, liq |-> FALSE, meta |-> FALSE]
-               valid  == pre /\ (IF cur.on THEN cur.owner = e.o ELSE create)
+               valid  == pre /\ (IF cur.on /\ ~create THEN cur.owner = e.o ELSE create)
                bump   == IF Weaken = "bumpOnlyWhenValid" /\ ~valid
                          THEN <<>> ELSE << [F("bump") EXCEPT !.o = e.o, !.rc = rc1] >>
            IN bump \o val \o (IF create
@@ -173,7 +190,8 @@ Eff(m, e) ==
            LET S == ClusterShares(m, e) IN IF S = {} THEN <<>> ELSE << [F("saveLiq") EXCEPT !.vs = S, !.flag = TRUE] >>
       [] e.k = "React" ->
            LET S == ClusterShares(m, e)
-           IN IF S = {} THEN <<>> ELSE << [F("saveLiq") EXCEPT !.vs = S, !.flag = FALSE] >> \o Rep(F("kmBump"), Cardinality(S))
+           IN IF S = {} THEN <<>>
+              ELSE << [F("saveLiq") EXCEPT !.vs = S, !.flag = (Weaken = "reactKeepsLiquidated")] >> \o Rep(F("kmBump"), Cardinality(S))
       [] e.k = "Fee" ->
            IF m.tx.rcpt[e.o].on /\ m.tx.rcpt[e.o].fee = e.fee THEN <<>>
            ELSE << [F("setFee") EXCEPT !.o = e.o, !.rc = [on |-> TRUE, nonce |-> m.tx.rcpt[e.o].nonce, fee |-> e.fee]] >>
@@ -184,16 +202,15 @@ Task(m, e) ==
     CASE e.k = "VAdd" ->
            LET effs == Eff(m, e)
                cur  == m.mem.shares[e.v]
-               pre  == /\ CommitteeOK(m.tx.ops, e.comm) /\ e.len = "ok" /\ e.sig = "ok"
-                       /\ (Weaken = "noNonceCheck" \/ e.sn = m.tx.rcpt[e.o].nonce)
-           IN IF cur.on THEN (IF pre /\ cur.owner = e.o /\ cur.mine THEN "start" ELSE "none")
-              ELSE IF \E k \in 1..Len(effs) : effs[k].t = "kmAdd" THEN "start" ELSE "none"
+               pre  == MechPre(m, e)
+           IN IF \E k \in 1..Len(effs) : effs[k].t = "kmAdd" THEN "start"
+              ELSE IF cur.on /\ pre /\ cur.owner = e.o /\ cur.mine THEN "start" ELSE "none"
       [] e.k = "VRem" ->
            LET cur == m.mem.shares[e.v]
            IN IF cur.on /\ (cur.owner = e.o \/ Weaken = "noOwnerCheckOnRemove") /\ cur.mine THEN "stop" ELSE "none"
       [] e.k = "VExit" ->
            LET cur == m.mem.shares[e.v]
-           IN IF cur.on /\ cur.owner = e.o /\ cur.mine /\ cur.meta THEN "exit" ELSE "none"
+           IN IF cur.on /\ (cur.owner = e.o \/ Weaken = "exitNoOwnerCheck") /\ cur.mine /\ cur.meta THEN "exit" ELSE "none"
       [] e.k = "Liq"   -> IF ClusterShares(m, e) = {} THEN "none" ELSE "liquidate"
       [] e.k = "React" -> IF ClusterShares(m, e) = {} THEN "none" ELSE "reactivate"
       [] e.k = "Fee"   -> IF Eff(m, e) = <<>> THEN "none" ELSE "fee"
@@ -346,6 +363,7 @@ KeysMatchRules   == Boundary => ks = exp.ks                    \* stored key sha
 MemMatchesDb     == Boundary => mem = Load(db) /\ tx = db      \* in-memory view = database; a restart reproduces it
 LastBlockRight   == Boundary => db.last = blockNo - 1
 OwnStable        == Boundary => mem.own = OwnId(exp.ops)
+ExitOnlyByOwner  == (act.name = "Proc" /\ act.task = "exit") => exp.shares[act.e.v].owner = act.e.o
 TypeOK == /\ nEv \in 0..MaxEvents /\ nFault \in 0..MaxFaults /\ pos \in 0..MaxEvents
           /\ \A o \in Owners : db.rcpt[o].nonce \in 0..MaxEvents
 =============================================================================
